@@ -81,6 +81,15 @@ pub fn run_c05(out: &mut Out, rng: &mut Rng, tier: Tier) -> String {
     let n = if tier == Tier::Quick { 400 } else { 4000 };
     compositions::<Tok>(out, rng, n, 9, 20);
     compositions::<()>(out, rng, n / 8, 5, 12);
+    // zero-sized elements with observable construction / destruction: the ledger delta of every operation is compared
+    out.led_mode = true;
+    single_ops::<Zd>(out, 3);
+    compositions::<Zd>(out, rng, n / 16, 4, 10);
+    out.led_mode = false;
+    let z = snapshot();
+    if z.zst_live != 0 || z.zst_overdrops != 0 {
+        out.oracle_fail(&format!("zero-sized elements with drop glue: created - dropped = {} after all matrices were dropped, drops beyond creations = {}", z.zst_live, z.zst_overdrops));
+    }
     let s = snapshot();
     if s.double_drops > 0 || s.live != 0 {
         out.oracle_fail(&format!("ledger at the end of the run: {} tokens still live, {} double drops", s.live, s.double_drops));
